@@ -30,7 +30,7 @@ ASSUMPTIONS = ["criteria relying on the default search are exercised in float64 
                "the bisection precision 1e-6 (x Lipschitz constant <= 4) in the criterion value",
                "float32 samples are kept below 8 in magnitude for default-search criteria (the search precision 1e-6 is below one ulp beyond that; "
                "termination of bisect is property C19, not claimed)"]
-PROBES = ["price_recomputed", "shift_equivariance", "erm_price_equals_loss", "cash_certainty_equivalent", "constant_sample", "multi_column_sample",
+PROBES = ["earlier_quote_aborted", "price_recomputed", "shift_equivariance", "erm_price_equals_loss", "cash_certainty_equivalent", "constant_sample", "multi_column_sample",
           "default_search", "n_times_ge2", "fresh_clone", "other_actor_between", "init_state", "listed_hedge", "flat_market", "single_path"]
 CRITS = ["EntropicRiskMeasure", "EntropicLoss", "IsoelasticLoss", "ExpectedShortfall", "QuadraticCVaR", "UserES", "UserMeanStd"]
 DEFAULT_SEARCH = {"IsoelasticLoss", "UserES", "UserMeanStd"}
@@ -77,6 +77,10 @@ def generate(rng):
     for _ in range(rng.randint(2, 6)):
         if rng.chance(0.2):
             ops.append({"op": "other_actor", "n_paths": rng.choice([1, 4]), "torch_seed": rng.seed31()})
+        if rng.chance(0.15):
+            # F8: a quote was aborted before - the criterion (or the hedging model) raised in the middle of price() / cash()
+            ops.append({"op": "aborted_quote", "who": rng.choice(["criterion", "criterion", "model"]), "after": rng.randint(0, 2),
+                        "n_paths": rng.choice([2, 5]), "n_times": rng.choice([1, 2]), "hedge": hedge, "torch_seed": rng.seed31()})
         init = None
         if rng.chance(0.2):
             s0 = rng.choice([1.05, 1.05, 3.0])
@@ -130,12 +134,36 @@ def _execute(program, stats, hist):
             try:
                 d.simulate(n_paths=op["n_paths"])
                 with torch.no_grad():
-                    h.compute_hedge(d, hedge=world.hedge_list(program["ops"][-1].get("hedge")))
+                    h.compute_hedge(d, hedge=world.hedge_list(next((o.get("hedge") for o in reversed(program["ops"]) if "hedge" in o), None)))
             except Exception as e:
                 raise Inconclusive("other_actor raised %r" % (e,))
             stats.fault("F10_aliasing_resimulate")
             other = True
             hist.add(op=name)
+            continue
+        if name == "aborted_quote":
+            class _Fault(RuntimeError):  # what torch itself raises on a shape or dtype error
+                pass
+            calls = [0]
+
+            def boom(mod, args, _after=op["after"]):
+                calls[0] += 1
+                if calls[0] > _after:
+                    raise _Fault("injected")
+            target = h.criterion if op["who"] == "criterion" else h.model
+            handle = target.register_forward_pre_hook(boom)
+            torch.manual_seed(op["torch_seed"])
+            raised = False
+            try:
+                h.price(d, hedge=world.hedge_list(op.get("hedge")), n_paths=op["n_paths"], n_times=op["n_times"])
+            except Exception:
+                raised = True
+            finally:
+                handle.remove()
+            stats.fault("F8_callback_exception")
+            if raised:
+                stats.probe("earlier_quote_aborted")
+            hist.add(op=name, raised=raised)
             continue
         hedge = world.hedge_list(op.get("hedge"))
         init = tuple(op["init_state"]) if op.get("init_state") else None
